@@ -23,19 +23,30 @@ type vC17G struct {
 
 func VerifHarness_C17_PruneShardGroups() {
 	before := time.Now()
-	// two databases x 1..2 policies x 0..2 groups; every group live, freshly deleted or deleted
-	// around the grace period's edge (symbolic, to the nanosecond)
+	// 1..2 databases (the first with 1..2 policies), 0..2 groups in the first policy and 0..1 in
+	// the others; every group live or marked deleted 0..30 days ago (symbolic, to the nanosecond)
 	d := &Data{}
 	var model [][]vC17G // per policy, in visiting order
 	next := uint64(0)
-	nDB := vLen("databases", 1, 2)
+	nDB := 1
+	if vThorough() {
+		nDB = vLen("databases", 1, 2)
+	}
 	for i := 0; i < nDB; i++ {
 		db := DatabaseInfo{Name: string(rune('a' + i))}
-		nRP := vLen("policies", 1, 2)
+		nRP := 1
+		if i == 0 {
+			nRP = vLen("policies", 1, 2)
+		}
 		for j := 0; j < nRP; j++ {
 			rp := RetentionPolicyInfo{Name: string(rune('p' + j)), ReplicaN: 1, Duration: time.Duration(j) * time.Hour, ShardGroupDuration: time.Hour}
 			var gs []vC17G
-			nG := vLen("groups", 0, 2)
+			// the first policy visited holds up to two groups, the others up to one
+			maxG := 1
+			if i == 0 && j == 0 {
+				maxG = 2
+			}
+			nG := vLen("groups", 0, maxG)
 			for k := 0; k < nG; k++ {
 				next++
 				end := time.Unix(0, int64(next)*int64(time.Hour)).UTC()
@@ -59,7 +70,8 @@ func VerifHarness_C17_PruneShardGroups() {
 
 	after := time.Now()
 	vAssume(after.Sub(before) < 2*time.Second)
-	grace := -ShardGroupDeletedExpiration
+	// the cut-off instant the call used lies between these two (it reads the clock once)
+	cutoffLo, cutoffHi := before.Add(ShardGroupDeletedExpiration), after.Add(ShardGroupDeletedExpiration)
 	pi := 0
 	for i := range d.Databases {
 		for j := range d.Databases[i].RetentionPolicies {
@@ -69,8 +81,8 @@ func VerifHarness_C17_PruneShardGroups() {
 			// walk the policy's original groups in order; survivors keep their order and content
 			gi := 0
 			for _, g := range want {
-				surelyPruned := g.deleted && before.Sub(g.deletedAt) > grace
-				surelyKept := !g.deleted || after.Sub(g.deletedAt) <= grace
+				surelyPruned := g.deleted && cutoffLo.After(g.deletedAt)
+				surelyKept := !g.deleted || !cutoffHi.After(g.deletedAt)
 				present := gi < len(got) && got[gi].ID == g.id
 				if surelyPruned {
 					vAssert(!present, "C17.prune-removes-groups-deleted-before-the-grace-period")
